@@ -324,13 +324,9 @@ impl<'l, T: Debug> LocalQueue<'l, T> {
                             //可偷取的最大长度与本地队列可偷长度做比较
                             n.min(self.max_steal())
                                 //与其他队列当前长度的一半做比较
-                                .min(
-                                    another
-                                        .capacity()
-                                        .saturating_sub(another.spare_capacity())
-                                        .saturating_add(1)
-                                        .saturating_div(2),
-                                )
+                                // (`n` is the victim's length as the stealer sees it; asking the victim's
+                                // ring for its spare capacity is an owner-side operation and races with its owner)
+                                .min(n.saturating_add(1).saturating_div(2))
                         })
                         .is_ok()
                     {
